@@ -2,7 +2,7 @@
 From Coq Require Import ZArith QArith List Bool Lia.
 From Knut Require Import Model.Str Model.Dec Model.Date Model.Account Model.Ledger Model.Journal
      Model.Table Model.Report Model.JPrinter Model.ImpCommonA Model.ImpCommonB
-     Model.Imp.Revolut2 Model.Imp.Revolut Model.Imp.Wise
+     Model.Imp.Revolut2 Model.Imp.Revolut Model.Imp.Wise Model.Imp.Swissquote
      Spec.ImpSpecA Spec.ImpSpecB Proofs.DecProofs Proofs.DecValue Proofs.PairProofs Proofs.StrProofs
      Proofs.ImpProofsA.
 Import ListNotations.
@@ -521,5 +521,178 @@ Proof.
     + destruct (Hall e (or_introl eq_refl)) as [r Hr].
       apply books_b_intro; [reflexivity|]. intros c. exact (ws_entry_effect rep acct feeacct trading r e c H1 H2 H3 Hr).
     + apply IH. intros e' He'. apply Hall. right. exact He'.
+  - rewrite !map_map. apply map_ext. reflexivity.
+Qed.
+
+(* ---------------------------------------------------------------- swissquote *)
+
+Definition sq_record_of (r : list str) : sq_record :=
+  mkSq (sqs_date r) (field r 1) (field r 2) (field r 4) (field r 5)
+       (if is_empty (field r 3) then None else Some (field r 3))
+       (sqs_dec r 6) (sqs_dec r 7) (sqs_dec r 8) (sqs_dec r 9) (sqs_dec r 10) (sqs_dec r 11) (field r 12).
+
+Definition tentry_txn (e : tentry) : txn :=
+  mkTxn (re_date (en_fact (fst e))) (build_desc (en_text (fst e))) (legs_postings (en_legs (fst e))) (snd e).
+
+Lemma sq_line_ok r : sqs_wf_row r = true -> sq_line r = MOk (sq_record_of r).
+Proof.
+  intros H. unfold sqs_wf_row in H.
+  apply andb_prop in H. destruct H as [H _]. apply andb_prop in H. destruct H as [H Hcur].
+  apply andb_prop in H. destruct H as [H H11]. apply andb_prop in H. destruct H as [H H10].
+  apply andb_prop in H. destruct H as [H H9]. apply andb_prop in H. destruct H as [H H8].
+  apply andb_prop in H. destruct H as [H H7]. apply andb_prop in H. destruct H as [H H6].
+  apply andb_prop in H. destruct H as [H Hsym]. apply andb_prop in H. destruct H as [H Hd].
+  apply andb_prop in H. destruct H as [Hl Hlen].
+  unfold len_is in Hl. do 13 (destruct r as [|? r]; [discriminate Hl|]). destruct r; [|discriminate Hl].
+  unfold sq_record_of, sqs_date, sqs_dec, sqs_dec_ok, field in *. cbn [nth] in *.
+  apply is_some_inv in Hd. destruct Hd as [d Hd].
+  apply is_some_inv in H6. destruct H6 as [x6 H6]. apply is_some_inv in H7. destruct H7 as [x7 H7].
+  apply is_some_inv in H8. destruct H8 as [x8 H8]. apply is_some_inv in H9. destruct H9 as [x9 H9].
+  apply is_some_inv in H10. destruct H10 as [x10 H10]. apply is_some_inv in H11. destruct H11 as [x11 H11].
+  unfold sq_line, prefix10, sq_decimal. rewrite Hlen, Hd, H6, H7, H8, H9, H10, H11, Hcur. cbn [negb date_or0 dec_or0].
+  destruct (is_empty s2); cbn [negb andb orb] in *; [reflexivity|]. rewrite Hsym. reflexivity.
+Qed.
+
+Lemma sq_step_spec acct dividend interest tax fee trading pending r : sqs_wf_row r = true ->
+  sq_step acct dividend interest tax fee trading (option_map sq_record_of pending) (sq_record_of r) =
+  match sqs_kind r with
+  | SqTrade => MOk ([DTxn (tentry_txn (sqs_trade acct fee trading r))], option_map sq_record_of pending)
+  | SqForex => match pending with
+               | None => MOk ([], Some (sq_record_of r))
+               | Some l => MOk ([DTxn (tentry_txn (sqs_exchange acct trading l r))], None)
+               end
+  | _ => match pending with
+         | Some _ => MErr e_forex
+         | None => MOk ([DTxn (tentry_txn (sqs_single acct dividend interest tax fee r))], None)
+         end
+  end.
+Proof.
+  intros Hwf. unfold sqs_wf_row in Hwf. apply andb_prop in Hwf. destruct Hwf as [_ Hsym].
+  unfold sq_step, sq_symbol_p, sqs_single, sqs_kind in *. cbn [sq_type sq_record_of sq_symbol sq_currency sq_net sq_fee sq_quantity sq_price sq_order sq_name sq_isin sq_date].
+  change s_kauf with [75;97;117;102]%Z. change s_verkauf with [86;101;114;107;97;117;102]%Z.
+  change (has_str sq_forex_types (field r 2)) with (sqs_in sqs_forex (field r 2)).
+  change (has_str sq_dividend_types (field r 2)) with (sqs_in sqs_dividend (field r 2)).
+  change (has_str sq_transfer_types (field r 2)) with (sqs_in sqs_transfer (field r 2)).
+  change s_depot with [68;101;112;111;116;103;101;98;195;188;104;114;101;110]%Z. change s_zins with [90;105;110;115]%Z.
+  destruct (str_eqb (field r 2) [75;97;117;102]%Z || str_eqb (field r 2) [86;101;114;107;97;117;102]%Z).
+  { apply negb_true_iff in Hsym. rewrite Hsym. reflexivity. }
+  destruct (sqs_in sqs_forex (field r 2)).
+  { destruct pending as [l|]; reflexivity. }
+  destruct pending as [l|]; cbn [option_map];
+    [destruct (sqs_in sqs_dividend (field r 2)); [reflexivity|];
+     destruct (str_eqb (field r 2) [68;101;112;111;116;103;101;98;195;188;104;114;101;110]%Z); [reflexivity|];
+     destruct (sqs_in sqs_transfer (field r 2)); [reflexivity|];
+     destruct (str_eqb (field r 2) [90;105;110;115]%Z); reflexivity|].
+  destruct (sqs_in sqs_dividend (field r 2)).
+  { apply negb_true_iff in Hsym. rewrite Hsym. reflexivity. }
+  destruct (str_eqb (field r 2) [68;101;112;111;116;103;101;98;195;188;104;114;101;110]%Z); [reflexivity|].
+  destruct (sqs_in sqs_transfer (field r 2)); [reflexivity|].
+  destruct (str_eqb (field r 2) [90;105;110;115]%Z); reflexivity.
+Qed.
+
+Lemma sq_rows_ok acct dividend interest tax fee trading rows : forall pending,
+  sqs_wf (is_some pending) rows = true ->
+  sq_rows acct dividend interest tax fee trading (option_map sq_record_of pending) (map CRec rows) =
+  MOk (map DTxn (map tentry_txn (sqs_entries acct dividend interest tax fee trading pending rows))).
+Proof.
+  induction rows as [|r rows IH]; intros pending Hwf; [reflexivity|].
+  cbn [sqs_wf] in Hwf. apply andb_prop in Hwf. destruct Hwf as [Hr Hrest].
+  cbn [map sq_rows sqs_entries]. rewrite (sq_line_ok r Hr). cbn [mbind].
+  rewrite (sq_step_spec acct dividend interest tax fee trading pending r Hr).
+  destruct (sqs_kind r).
+  - cbn [mbind fst snd]. rewrite (IH pending Hrest). reflexivity.
+  - destruct pending as [l|]; cbn [mbind fst snd is_some negb] in *.
+    + pose proof (IH None Hrest) as E. cbn [option_map] in E. rewrite E. reflexivity.
+    + pose proof (IH (Some r) Hrest) as E. cbn [option_map] in E. rewrite E. reflexivity.
+  - apply andb_prop in Hrest. destruct Hrest as [Hp Hrest]. destruct pending; [discriminate Hp|].
+    cbn [mbind fst snd]. pose proof (IH None Hrest) as E. cbn [option_map] in E. rewrite E. reflexivity.
+  - apply andb_prop in Hrest. destruct Hrest as [Hp Hrest]. destruct pending; [discriminate Hp|].
+    cbn [mbind fst snd]. pose proof (IH None Hrest) as E. cbn [option_map] in E. rewrite E. reflexivity.
+  - apply andb_prop in Hrest. destruct Hrest as [Hp Hrest]. destruct pending; [discriminate Hp|].
+    cbn [mbind fst snd]. pose proof (IH None Hrest) as E. cbn [option_map] in E. rewrite E. reflexivity.
+  - apply andb_prop in Hrest. destruct Hrest as [Hp Hrest]. destruct pending; [discriminate Hp|].
+    cbn [mbind fst snd]. pose proof (IH None Hrest) as E. cbn [option_map] in E. rewrite E. reflexivity.
+  - apply andb_prop in Hrest. destruct Hrest as [Hp Hrest]. destruct pending; [discriminate Hp|].
+    cbn [mbind fst snd]. pose proof (IH None Hrest) as E. cbn [option_map] in E. rewrite E. reflexivity.
+Qed.
+
+Section SwissquoteEffects.
+  Variables acct dividend interest tax fee trading : account.
+  Hypothesis Htbd : acct <> tbd_account.
+  Hypothesis Hdiv : acct <> dividend.
+  Hypothesis Hint : acct <> interest.
+  Hypothesis Htax : acct <> tax.
+  Hypothesis Hfee : acct <> fee.
+  Hypothesis Htr : acct <> trading.
+
+  Lemma one_in_effect other cur q c : acct <> other ->
+    legs_effect acct c [mkLeg other acct cur q] == expected [(cur, q)] c.
+  Proof.
+    intros H. cbn [legs_effect expected fold_right fst snd]. unfold leg_effect. cbn [l_credit l_debit l_com l_qty].
+    rewrite (ind_other_acc other acct) by congruence. unfold ind. acc_cases. destruct (str_eq_dec cur c); ring.
+  Qed.
+
+  Lemma sqs_trade_effect r c :
+    legs_effect acct c (en_legs (fst (sqs_trade acct fee trading r))) == expected (re_changes (en_fact (fst (sqs_trade acct fee trading r)))) c.
+  Proof.
+    unfold sqs_trade. cbn [fst en_legs en_fact re_changes legs_effect expected fold_right snd].
+    unfold leg_effect. cbn [l_credit l_debit l_com l_qty].
+    rewrite !(ind_other_acc trading acct) by congruence. rewrite (ind_other_acc fee acct) by congruence.
+    unfold ind. acc_cases.
+    destruct (str_eq_dec (sqs_sym r) c); destruct (str_eq_dec (sqs_cur r) c); rewrite ?dvalue_add, ?dvalue_neg; ring.
+  Qed.
+
+  Lemma sqs_exchange_effect l r c :
+    legs_effect acct c (en_legs (fst (sqs_exchange acct trading l r))) == expected (re_changes (en_fact (fst (sqs_exchange acct trading l r)))) c.
+  Proof.
+    unfold sqs_exchange. cbn [fst en_legs en_fact re_changes legs_effect expected fold_right snd].
+    unfold leg_effect. cbn [l_credit l_debit l_com l_qty].
+    rewrite !(ind_other_acc trading acct) by congruence. unfold ind. acc_cases.
+    destruct (str_eq_dec (sqs_cur l) c); destruct (str_eq_dec (sqs_cur r) c); ring.
+  Qed.
+
+  Lemma sqs_single_effect r c :
+    legs_effect acct c (en_legs (fst (sqs_single acct dividend interest tax fee r))) ==
+    expected (re_changes (en_fact (fst (sqs_single acct dividend interest tax fee r)))) c.
+  Proof.
+    unfold sqs_single. destruct (sqs_kind r); cbn [fst en_legs en_fact re_changes]; try (apply one_in_effect; assumption).
+    destruct (is_zero (sqs_dec r 8)); [apply one_in_effect; assumption|].
+    cbn [legs_effect expected fold_right fst snd]. unfold leg_effect. cbn [l_credit l_debit l_com l_qty].
+    rewrite (ind_other_acc dividend acct) by congruence. rewrite (ind_other_acc tax acct) by congruence.
+    unfold ind. acc_cases. destruct (str_eq_dec (sqs_cur r) c); rewrite ?dvalue_neg; ring.
+  Qed.
+
+  Lemma sqs_entries_books rows : forall pending,
+    Forall2 (fun e t => books_b acct (en_fact (fst e)) (en_legs (fst e)) (snd e) t)
+            (sqs_entries acct dividend interest tax fee trading pending rows)
+            (map tentry_txn (sqs_entries acct dividend interest tax fee trading pending rows)).
+  Proof.
+    induction rows as [|r rows IH]; intros pending; [constructor|].
+    cbn [sqs_entries]. destruct (sqs_kind r) eqn:Hk.
+    2: destruct pending as [l|]; [|apply IH].
+    all: cbn [map]; constructor; try apply IH.
+    all: apply books_b_intro; [reflexivity|intros c].
+    - apply sqs_trade_effect.
+    - apply sqs_exchange_effect.
+    - apply sqs_single_effect.
+    - apply sqs_single_effect.
+    - apply sqs_single_effect.
+    - apply sqs_single_effect.
+    - apply sqs_single_effect.
+  Qed.
+End SwissquoteEffects.
+
+Theorem swissquote_faithful acct dividend interest tax fee trading header rows :
+  acct <> tbd_account -> acct <> dividend -> acct <> interest -> acct <> tax -> acct <> fee -> acct <> trading ->
+  sqs_wf false rows = true ->
+  let entries := sqs_entries acct dividend interest tax fee trading None rows in
+  exists ts,
+    import_swissquote acct dividend interest tax fee trading (CRec header :: map CRec rows) = MOk (map DTxn ts) /\
+    Forall2 (fun e t => books_b acct (en_fact (fst e)) (en_legs (fst e)) (snd e) t) entries ts /\
+    map t_desc ts = map build_desc (map (fun e => en_text (fst e)) entries).
+Proof.
+  intros H1 H2 H3 H4 H5 H6 Hwf entries. exists (map tentry_txn entries). split; [|split].
+  - cbn [import_swissquote]. apply (sq_rows_ok acct dividend interest tax fee trading rows None). exact Hwf.
+  - apply sqs_entries_books; assumption.
   - rewrite !map_map. apply map_ext. reflexivity.
 Qed.
